@@ -43,6 +43,9 @@ pub struct Cfg {
     pub ff: u64,
     pub rank: u64,
     pub world: u64,
+    /// order of the two independent setters before the iteration: false = set_epoch, set_fast_forward; true = the
+    /// other way round
+    pub ff_first: bool,
 }
 
 fn is_bad(bad: u64, k: u64, i: u64) -> bool {
@@ -203,8 +206,13 @@ pub fn run_loader_with(c: &Cfg, order: &[(u64, u64)], reused: bool) -> Result<Ru
             }
         }
     }
-    l.set_epoch(c.epoch as usize);
-    l.set_fast_forward(c.ff as usize);
+    if c.ff_first {
+        l.set_fast_forward(c.ff as usize);
+        l.set_epoch(c.epoch as usize);
+    } else {
+        l.set_epoch(c.epoch as usize);
+        l.set_fast_forward(c.ff as usize);
+    }
     l.iter().map_err(|e| e.to_string())?;
     let mut batches = vec![];
     let mut guard = 0;
@@ -236,10 +244,10 @@ fn rd_cfg(r: &mut Rd) -> R<Cfg> {
     let rank = r.nat()?;
     let world = r.nat()?;
     let rest = r.nats()?;
-    if rest.len() < 12 {
+    if rest.len() < 13 {
         return Err("short config".into());
     }
-    let lens = rest[12..].to_vec();
+    let lens = rest[13..].to_vec();
     if lens.iter().sum::<u64>() != n {
         return Err("N is not the total number of lines".into());
     }
@@ -262,6 +270,7 @@ fn rd_cfg(r: &mut Rd) -> R<Cfg> {
         ff,
         rank,
         world,
+        ff_first: rest[12] == 1,
     })
 }
 
@@ -272,7 +281,7 @@ fn enc_cfg(c: &Cfg) -> Vec<u64> {
         None => v.push(0),
     }
     v.extend([c.ff, c.rank, c.world]);
-    let mut rest = vec![c.strategy, c.seed, c.epoch, c.threads, c.buffer, c.sort as u64, c.shuffle as u64, c.prefetch, c.batch_limit, c.padded as u64, c.prep, c.bad];
+    let mut rest = vec![c.strategy, c.seed, c.epoch, c.threads, c.buffer, c.sort as u64, c.shuffle as u64, c.prefetch, c.batch_limit, c.padded as u64, c.prep, c.bad, c.ff_first as u64];
     rest.extend(c.lens.iter().copied());
     enc_nats(&mut v, rest);
     v
@@ -407,6 +416,7 @@ fn rand_cfg(ctx: &mut Ctx) -> Cfg {
         ff: ctx.rng.random_range(0..=4),
         rank: ctx.rng.random_range(0..world),
         world,
+        ff_first: ctx.rng.random_bool(0.5),
         // a third of the configurations have lines that do not parse (incl. first lines, split points)
         bad: [0u64, 0, 0, 0, 2, 3, 5][ctx.rng.random_range(0..7)],
         lens,
